@@ -449,6 +449,10 @@ func c13Run(c *fw.Ctx, b fw.Batch) {
 			if i%16 == 1 { // very long tables of short rows (more records than any fixed record budget)
 				rows, cols = 130+r.Intn(400), 2
 			}
+			if i%16 == 9 { // thousands of short rows: the first bad row lies behind row 1000 / 1024 / 2048
+				rows, cols = 1003+r.Intn(1500), 2
+				c.Count("tables_of_more_than_1000_rows", 1)
+			}
 			crlf := r.Intn(3) == 0
 			// simple unquoted cells, no comments, no foreign delimiter
 			var lines []string
@@ -463,7 +467,10 @@ func c13Run(c *fw.Ctx, b fw.Batch) {
 				if rows > 12 && dmg > 3 && dmg < rows-3 && dmg%5 != i%5 {
 					continue
 				}
-				if rows >= 130 && dmg > 3 && dmg < rows-3 && dmg != 127 && dmg != 128 && dmg != 129 && dmg != 255 && dmg != 256 && dmg != 257 && dmg%40 != i%40 {
+				if rows >= 1000 && dmg > 3 && dmg < rows-3 && !(dmg >= 998 && dmg <= 1002) && !(dmg >= 1023 && dmg <= 1025) && !(dmg >= 2047 && dmg <= 2049) && dmg%500 != i%500 {
+					continue
+				}
+				if rows >= 130 && rows < 1000 && dmg > 3 && dmg < rows-3 && dmg != 127 && dmg != 128 && dmg != 129 && dmg != 255 && dmg != 256 && dmg != 257 && dmg%40 != i%40 {
 					continue
 				}
 				mod := append([]string{}, lines...)
@@ -491,6 +498,9 @@ func c13Run(c *fw.Ctx, b fw.Batch) {
 				lims := []uint32{0, uint32(len(d) + 1)}
 				for L := from; L <= len(d); L++ {
 					if len(d) > 300 && L > from+3 && L < len(d)-3 && L%11 != 0 {
+						continue
+					}
+					if rows >= 1000 && L > from+3 && L < len(d)-3 && L%997 != 0 {
 						continue
 					}
 					lims = append(lims, uint32(L))
